@@ -35,7 +35,7 @@ RULE = (
     'Hypothesis draws 2-3 levels, node-set pairs/triples (equal or different counts, all families/types), space transfer '
     '(Lagrange orders 2-8 on periodic/Dirichlet FD grids, FFT, identity), finter on/off, linear (dense fixtures with forcing, heat, advection, '
     'advection-diffusion FFT/IMEX) and nonlinear (van der Pol, logistic, periodic Allen-Cahn) problems, dt, coarse preconditioners and middle-level sweeps. '
-    'Non-trivial = node counts differ or space is coarsened; three-level cases (inherited fine tau) are reported as a class; distinct = configuration tuple.'
+    'The iteration-map clause draws the linear generic_implicit subset (dense fixtures, heat, advection). Non-trivial = node counts differ or space is coarsened; three-level cases (inherited fine tau) are reported as a class; distinct = configuration tuple.'
 )
 ASSUMPTIONS = [
     'the restricted fine defect is formed with the transfer operators of the step (Rcoll, space_transfer.restrict): the clause is about consistency of tau, not about the operators (C11)',
@@ -257,6 +257,152 @@ def prop_fixed_point(case, r):
         r.close(dc, 1e-10 * scale + 1e4 * dn, 'coarse-fixed-point', lambda: f'level {l} defect {dc:.3e} after the cycle')
 
 
+# ----------------------------------------------------------------------------------------- (3) multigrid-in-time iteration map
+def _space_ops(bt, Lf, Lc):
+    """dense spatial prolongation / restriction matrices, obtained by applying the (linear) operators to unit vectors"""
+    nf, nc = int(np.prod(Lf.prob.init[0])), int(np.prod(Lc.prob.init[0]))
+    P = np.zeros((nf, nc))
+    Rm = np.zeros((nc, nf))
+    for j in range(nc):
+        e = np.zeros(nc)
+        e[j] = 1.0
+        P[:, j] = np.asarray(bt.space_transfer.prolong(_as(Lc, e))).ravel()
+    for j in range(nf):
+        e = np.zeros(nf)
+        e[j] = 1.0
+        Rm[:, j] = np.asarray(bt.space_transfer.restrict(_as(Lf, e))).ravel()
+    return P, Rm
+
+
+def _op_matrix(L):
+    P = L.prob
+    if hasattr(P, 'Amat'):
+        return np.asarray(P.Amat, float)
+    return np.asarray(P.A.toarray(), float)
+
+
+def _forcing(L):
+    """node forcing G (M x n) of the linear right-hand side f(u, t) = A u + g(t); g = f(0, t)"""
+    P = L.prob
+    nodes = L.sweep.coll.nodes
+    z = P.dtype_u(P.init, val=0.0)
+    return np.array([np.asarray(P.eval_f(z, L.time + L.dt * nodes[m])).ravel() for m in range(len(nodes))])
+
+
+def prop_iteration(case, r):
+    """one complete multilevel iteration (IT_DOWN, IT_COARSE, IT_UP, IT_FINE) of the real controller on an arbitrary fine iterate equals
+    the explicit multigrid-in-time map assembled from dense Q, QDelta, A, Pcoll/Rcoll and the spatial transfer matrices of every level"""
+    from pySDC.core.base_transfer import BaseTransfer
+
+    labels(case, r)
+    ctrl, S = start_step(case)
+    nl = len(S.levels)
+    L0 = S.levels[0]
+    M0 = L0.sweep.coll.num_nodes
+    base = np.asarray(L0.u[0]).ravel()
+    rnd = np.resize(_np(case['iterate']), (M0, base.size))
+    set_fine_values(L0, [base + rnd[m] for m in range(M0)])
+    # dense ingredients per level
+    A = [_op_matrix(L) for L in S.levels]
+    G = [_forcing(L) for L in S.levels]
+    Q = [np.asarray(L.sweep.coll.Qmat, float)[1:, 1:] for L in S.levels]
+    QD = [np.asarray(L.sweep.QI, float)[1:, 1:] for L in S.levels]
+    dt = L0.dt
+    bts = [BaseTransfer(S.levels[l], S.levels[l + 1], {'finter': case['finter']}, S.base_transfer.space_transfer.__class__, dict(build_desc(case).get('space_transfer_params', {}))) for l in range(nl - 1)]
+    ops = [_space_ops(bts[l], S.levels[l], S.levels[l + 1]) for l in range(nl - 1)]
+    Pc = [np.asarray(b.Pcoll, float) for b in bts]
+    Rc = [np.asarray(b.Rcoll, float) for b in bts]
+    # reference state: U (M x n), F (M x n, stored right-hand sides), u0, tau per level
+    U = [None] * nl
+    Fs = [None] * nl
+    u0 = [None] * nl
+    tau = [None] * nl
+    Uold = [None] * nl
+    Fold = [None] * nl
+    U[0] = np.array([np.asarray(L0.u[m]).ravel() for m in range(1, M0 + 1)])
+    Fs[0] = np.array([np.asarray(L0.f[m]).ravel() for m in range(1, M0 + 1)])
+    u0[0] = base.copy()
+    kap = 1.0
+
+    def feval(l, Ul):
+        return Ul @ A[l].T + G[l]
+
+    def sweep(l):
+        nonlocal kap
+        Ml, n = U[l].shape
+        rhs = np.tile(u0[l], (Ml, 1)) + dt * (Q[l] - QD[l]) @ Fs[l] + dt * QD[l] @ G[l]
+        if tau[l] is not None:
+            rhs = rhs + tau[l]
+        Sys = np.eye(Ml * n) - dt * np.kron(QD[l], A[l])
+        kap = max(kap, np.linalg.cond(Sys))
+        U[l] = np.linalg.solve(Sys, rhs.reshape(-1)).reshape(Ml, n)
+        Fs[l] = feval(l, U[l])
+
+    def restrict(l):
+        P_, R_ = ops[l]
+        U[l + 1] = Rc[l] @ U[l] @ R_.T
+        u0[l + 1] = R_ @ u0[l]
+        Fs[l + 1] = feval(l + 1, U[l + 1])
+        tauF = dt * Q[l] @ Fs[l]
+        tauG = dt * Q[l + 1] @ Fs[l + 1]
+        tau[l + 1] = Rc[l] @ tauF @ R_.T - tauG
+        if tau[l] is not None:
+            tau[l + 1] = tau[l + 1] + Rc[l] @ tau[l] @ R_.T
+        Uold[l + 1] = U[l + 1].copy()
+        Fold[l + 1] = Fs[l + 1].copy()
+
+    def prolong(l):
+        P_, R_ = ops[l]
+        U[l] = U[l] + Pc[l] @ (U[l + 1] - Uold[l + 1]) @ P_.T
+        if case['finter']:
+            Fs[l] = Fs[l] + Pc[l] @ (Fs[l + 1] - Fold[l + 1]) @ P_.T
+        else:
+            Fs[l] = feval(l, U[l])
+
+    nsw = case['nsweeps']
+    restrict(0)
+    for l in range(1, nl - 1):
+        for _ in range(nsw[l]):
+            sweep(l)
+        restrict(l)
+    sweep(nl - 1)
+    for l in range(nl - 1, 0, -1):
+        prolong(l - 1)
+        if l - 1 > 0:
+            for _ in range(nsw[l - 1]):
+                sweep(l - 1)
+    for _ in range(nsw[0]):
+        sweep(0)
+
+    # the real controller
+    S.status.iter = 1
+    S.status.stage = 'IT_DOWN'
+    guard = 0
+    while S.status.stage != 'IT_CHECK':
+        ctrl.pfasst([S])
+        guard += 1
+        if guard > 8:
+            r.fail('cycle-stages', f'stage {S.status.stage} after {guard} calls')
+            return
+    if kap > 1e7:
+        r.discard('ill-conditioned node system')
+        return
+    scale = max(1.0, max(np.abs(x).max() for x in U))
+    for l in range(nl):
+        L = S.levels[l]
+        got = np.array([np.asarray(L.u[m]).ravel() for m in range(1, L.sweep.coll.num_nodes + 1)])
+        r.close(np.abs(got - U[l]).max(), 1e-10 * kap * scale, 'iteration-map-values', lambda: f'level {l}: {case["problem"]} nodes {case["num_nodes"]} {case["quad_type"]} finter={case["finter"]} QI={case["QI"]} nsweeps={nsw}')
+    gotf = np.array([np.asarray(L0.f[m]).ravel() for m in range(1, M0 + 1)])
+    fscale = max(1.0, np.abs(Fs[0]).max())
+    r.close(np.abs(gotf - Fs[0]).max(), 1e-10 * kap * max(scale * np.abs(A[0]).sum(axis=1).max(), fscale), 'iteration-map-f')
+
+
+@st.composite
+def linear_cases(draw):
+    case = draw(cases(nonlinear=False).filter(lambda c: c['problem'] in ('linvec', 'heat', 'advection')))
+    return case
+
+
 # ----------------------------------------------------------------------------------------- strategies
 @st.composite
 def cases(draw, nonlinear=True):
@@ -322,4 +468,5 @@ def clauses(tier):
     return [
         Clause('defect-identity', prop_defect, strategy=cases(), examples={'quick': 500, 'thorough': 12000}),
         Clause('fixed-point', prop_fixed_point, strategy=cases(), examples={'quick': 350, 'thorough': 8000}),
+        Clause('iteration-map', prop_iteration, strategy=linear_cases(), examples={'quick': 350, 'thorough': 8000}),
     ]
